@@ -394,6 +394,21 @@ func RunC11(col *core.Collector, tier, variant string, seed uint64, shard, nshar
 			break
 		}
 	}
+	for i := shard; i < fresh*4; i += nshards {
+		cs := core.Derive(seed, core.StrLabel("C11swap"), core.StrLabel(variant), uint64(i))
+		v, reloads := runC11Swap(cs)
+		col.Eval(1)
+		col.Count("c11.swap.scenarios", 1)
+		col.Count("c11.swap.reloads", reloads)
+		if reloads > 0 {
+			col.NonTrivial(cs)
+		}
+		if v != "" {
+			path := writeReplay(replayDir, fmt.Sprintf("C11-swap-%x.json", cs), map[string]any{"engine": "c11-swap", "case_seed": cs, "violation": v})
+			col.Violation(core.Violation{Property: "C11", Signature: "c11-swap:" + sigText(v), Detail: v, Replay: path})
+			break
+		}
+	}
 	for i := shard; i < n; i += nshards {
 		r := core.NewRng(core.Derive(seed, core.StrLabel("C11conc"), core.StrLabel(variant), uint64(i)))
 		cfg := c11Cfg{Seed: r.U64(), Index: i, Scenario: r.Intn(6), Outcome: r.Intn(3), Readers: 1 + r.Intn(6), DelayPerM: []int{0, 100, 300, 600}[r.Intn(4)]}
